@@ -5,7 +5,8 @@
 // After EVERY event, for every sampler created since the last reload/clear (i.e. every sampler a worker may still be
 // using) the goal in force — the exported GoalThroughputPerSec field of the dynsampler-go instance behind it, which
 // must be registered in the factory's shared map — must equal
-//     UseClusterSize ? max(1, floor(configured goal / current number of peers)) : configured goal.
+//
+//	UseClusterSize ? max(1, floor(configured goal / current number of peers)) : configured goal.
 package main
 
 import (
